@@ -795,7 +795,13 @@ func c13Label() string {
 
 // ---- chain notifier, chain io, sweeper, witness beacon -------------------------
 
-type c13Notifier struct{ w *c13World }
+// The notifier and the sweeper of an incarnation carry its number: a goroutine of a stopped incarnation that is
+// scheduled late (Launch goroutines are not waited for by ChannelArbitrator.Stop) must not leave effects in the
+// next one - after a real crash the process is gone.
+type c13Notifier struct {
+	w   *c13World
+	inc int
+}
 
 func (n *c13Notifier) RegisterConfirmationsNtfn(*chainhash.Hash, []byte, uint32, uint32,
 	...chainntnfs.NotifierOption) (*chainntnfs.ConfirmationEvent, error) {
@@ -811,6 +817,9 @@ func (n *c13Notifier) RegisterSpendNtfn(op *wire.OutPoint, _ []byte, _ uint32) (
 	n.w.mu.Lock()
 	defer n.w.mu.Unlock()
 	c := make(chan *chainntnfs.SpendDetail, 1)
+	if n.inc != n.w.inc {
+		return &chainntnfs.SpendEvent{Spend: c, Cancel: func() {}}, nil
+	}
 	if !n.w.crashed && !n.w.dead {
 		// which outpoint the caller waits for (named by a table lookup)
 		n.w.emitLocked("Watch", "", "", n.w.s.role(*op), "")
@@ -848,7 +857,10 @@ func (c *c13ChainIO) GetBestBlock() (*chainhash.Hash, int32, error) {
 	return nil, c.w.height, nil
 }
 
-type c13Sweeper struct{ w *c13World }
+type c13Sweeper struct {
+	w   *c13World
+	inc int
+}
 
 func (s *c13Sweeper) SweepInput(inp input.Input, _ sweep.Params) (chan sweep.Result, error) {
 	role := s.w.s.role(inp.OutPoint())
@@ -857,7 +869,7 @@ func (s *c13Sweeper) SweepInput(inp input.Input, _ sweep.Params) (chan sweep.Res
 		cb = 1
 	}
 	s.w.mu.Lock()
-	if !s.w.crashed && !s.w.dead {
+	if s.inc == s.w.inc && !s.w.crashed && !s.w.dead {
 		// the sweeper can only ever publish what it can sign: a script-path spend of a taproot
 		// output needs the control block (our anchor is a key spend)
 		if role == "anchor" || s.w.s.ctype != "taproot" || cb == 1 {
@@ -992,9 +1004,9 @@ func c13Boot(t *testing.T, w *c13World, db kvdb.Backend) (*c13Inc, error) {
 	cfg.ShortChanID = w.channel.ShortChanID()
 	cfg.PreimageDB = &c13Beacon{w}
 	cfg.Registry = &mockRegistry{}
-	cfg.Notifier = &c13Notifier{w}
+	cfg.Notifier = &c13Notifier{w, w.inc}
 	cfg.ChainIO = &c13ChainIO{&mockChainIO{}, w}
-	cfg.Sweeper = &c13Sweeper{w}
+	cfg.Sweeper = &c13Sweeper{w, w.inc}
 	cfg.OnionProcessor = &mockOnionProcessor{isExit: false}
 	cfg.PublishTx = func(*wire.MsgTx, string) error {
 		w.mu.Lock()
